@@ -14,6 +14,11 @@
                 <<"M">>       m: nat @comptime         comptime nat (stays a Hugr parameter)
                 <<"D", tv>>   c: T_tv @comptime        comptime const of variable type
                 <<"B", tv>>   b: G1[T_tv]              generic struct
+                <<"G">>       t: Tag[B]                bool const parameter carried by a struct type
+
+   main calls mid TWICE (rounds 1 and 2) with the same types but different constants, so mid
+   and foo are instantiated at two different constant vectors in one compilation and each
+   instance of mid must forward ITS constants to foo.
 
    Actions follow the compiler: the checker infers the instantiation of each call
    (expr_checker.synthesize_call: unify declared input types with the actual ones),
@@ -27,7 +32,8 @@
 EXTENDS TypeAlg, Integers, Json
 
 CONSTANTS MaxSlots,
-          OnlyEq     \* BOOLEAN: enumerate only the equal-arguments cases (see ValidCase)
+          Only       \* "all" | "eq" | "zero": enumerate all cases / only the equal-arguments cases /
+                     \* only the +0.0 vs -0.0 cases (see ValidCase)
 
 TNames == <<"T0", "T1">>
 NNames == <<"n0", "n1">>
@@ -37,11 +43,14 @@ KN == <<"k0", "k1", "k2", "k3">>
 MN == <<"m0", "m1", "m2", "m3">>
 CNm == <<"c0", "c1", "c2", "c3">>
 BN == <<"b0", "b1", "b2", "b3">>
+GNm == <<"B0", "B1", "B2", "B3">>
+TGN == <<"t0", "t1", "t2", "t3">>
+Rounds == 1..2
 NumTok == <<"0", "1", "2", "3", "4", "5", "6", "7", "8", "9">>     \* NumTok[n + 1]
 Tok(n) == NumTok[n + 1]
 
 SlotKinds == {<<"V", 0>>, <<"V", 1>>, <<"A", 0>>, <<"A", 1>>, <<"K">>, <<"M">>,
-              <<"D", 0>>, <<"D", 1>>, <<"B", 0>>, <<"B", 1>>}
+              <<"D", 0>>, <<"D", 1>>, <<"B", 0>>, <<"B", 1>>, <<"G">>}
 UsesT(s) == s[1] \in {"V", "D", "B"}
 UsesN(s) == s[1] = "A"
 \* variables are numbered in order of first use
@@ -57,24 +66,45 @@ NeedsCD(ss, tv) == \E j \in DOMAIN ss : ss[j] = <<"D", tv>>
 ArgsCD == {TInt, TFloat, TBool, TTup(<<TInt, TBool>>)}
 ArgsL == {TFloat, TArr(TInt, NatC("2"))}
 \* a case: slots, bound of each type variable, instantiation of each variable
+\* (built inside-out so that TLC enumerates few rejected candidates; ValidCase states the
+\* conditions again declaratively and is checked as an invariant: CasesValid)
+KDCount(ss) == Cardinality({j \in DOMAIN ss : ss[j][1] \in {"K", "D"}})
+SlotSeqsFor == {x \in SlotSeqs :
+                   /\ (Only = "eq") => KDCount(x) >= 2
+                   /\ (Only = "zero") => \E j \in DOMAIN x : x[j][1] = "D"}
+BoundsFor(ss) == {f \in [TVars(ss) -> {"CD", "L"}] : \A tv \in TVars(ss) : NeedsCD(ss, tv) => f[tv] = "CD"}
+TArgsFor(ss, bd, e) ==
+    {f \in [TVars(ss) -> ArgsCD \cup ArgsL] :
+        /\ \A tv \in TVars(ss) : f[tv] \in (IF bd[tv] = "CD" THEN ArgsCD ELSE ArgsL)
+        /\ (TVars(ss) = {0, 1}) => (IF e THEN f[0] = f[1] ELSE f[0] # f[1])}
+NArgsFor(ss) == {f \in [NVars(ss) -> {1, 2, 3}] :
+                    \A nv \in NVars(ss) : f[nv] = (IF nv = 0 THEN 3 ELSE 1) \/ (nv = 0 /\ f[nv] = 2)}
+EqFor(ss) == (IF Only = "eq" THEN {TRUE} ELSE IF Only = "zero" THEN {FALSE} ELSE BOOLEAN)
+             \cap (IF KDCount(ss) >= 2 THEN BOOLEAN ELSE {FALSE})
+ZeroFor(ss, ta, e) ==
+    (IF Only = "zero" THEN {TRUE} ELSE IF Only = "eq" THEN {FALSE} ELSE BOOLEAN)
+    \cap (IF ~e /\ \E j \in DOMAIN ss : ss[j][1] = "D" /\ ta[ss[j][2]] = TFloat THEN BOOLEAN ELSE {FALSE})
 CaseIds ==
-    UNION {{[slots |-> ss, bound |-> bd, targ |-> ta, narg |-> na, eq |-> e]
-              : e \in (IF OnlyEq THEN {TRUE} ELSE BOOLEAN),
-                bd \in {f \in [TVars(ss) -> {"CD", "L"}] : \A tv \in TVars(ss) : NeedsCD(ss, tv) => f[tv] = "CD"},
-                ta \in [TVars(ss) -> ArgsCD \cup ArgsL],
-                na \in {f \in [NVars(ss) -> {1, 2, 3}] : \A nv \in NVars(ss) : f[nv] = (IF nv = 0 THEN 3 ELSE 1)
-                                                                               \/ (nv = 0 /\ f[nv] = 2)}}
-           : ss \in {x \in SlotSeqs : OnlyEq => Cardinality({j \in DOMAIN x : x[j][1] \in {"K", "D"}}) >= 2}}
+    UNION {UNION {UNION {UNION {{[slots |-> ss, bound |-> bd, targ |-> ta, narg |-> na, eq |-> e, zero |-> z]
+                                  : na \in NArgsFor(ss), z \in ZeroFor(ss, ta, e)}
+                                : ta \in TArgsFor(ss, bd, e)}
+                         : bd \in BoundsFor(ss)}
+                  : e \in EqFor(ss)}
+           : ss \in SlotSeqsFor}
 ValidCase(c) ==
     /\ \A tv \in TVars(c.slots) : c.targ[tv] \in (IF c.bound[tv] = "CD" THEN ArgsCD ELSE ArgsL)
+    /\ \A tv \in TVars(c.slots) : NeedsCD(c.slots, tv) => c.bound[tv] = "CD"
     \* different variables get different arguments, so that a swap is visible ...
     /\ (TVars(c.slots) = {0, 1} /\ ~c.eq) => c.targ[0] # c.targ[1]
     \* ... except in the `eq` cases: there all comptime constants (and both type variables)
     \* are given EQUAL arguments - parameters are positions, not values, and a compiler
     \* that identifies monomorphised parameters by their argument goes wrong exactly here
-    /\ c.eq => /\ Cardinality({j \in DOMAIN c.slots : c.slots[j][1] \in {"K", "D"}}) >= 2
+    /\ c.eq => /\ KDCount(c.slots) >= 2
                /\ (TVars(c.slots) = {0, 1}) => c.targ[0] = c.targ[1]
-Cases == {c \in CaseIds : ValidCase(c)}
+    \* `zero` cases: a float @comptime constant is +0.0 in round 1 and -0.0 in round 2 - two
+    \* different constants (1/x differs) that compare equal
+    /\ c.zero => ~c.eq /\ \E j \in DOMAIN c.slots : c.slots[j][1] = "D" /\ c.targ[c.slots[j][2]] = TFloat
+Cases == CaseIds
 
 \* ---- signatures: check_signature ----------------------------------------------------
 TBv(c, params, tv) ==        \* the bound variable for T_tv given the parameters so far
@@ -117,6 +147,9 @@ ParseArgs(c, order, params, inputs) ==
                 LET t == TBv(c, withT, s[2])
                 IN ParseArgs(c, Tail(order), Append(withT, CP(Len(withT), CNm[pos], t, TRUE)),
                              Append(inputs, <<t, "comptime", CNm[pos]>>))
+           [] s[1] = "G" ->
+                ParseArgs(c, Tail(order), Append(params, CP(Len(params), GNm[pos], TBool, FALSE)),
+                          Append(inputs, <<TSt("Tag", <<ArgC(BC(Len(params), GNm[pos]))>>), "", TGN[pos]>>))
 
 \* the returned components: every T-typed thing in slot order, then the int sum
 RetOrder(c) == SeqFilter([j \in DOMAIN c.slots |-> j], [j \in DOMAIN c.slots |-> UsesT(c.slots[j])])
@@ -133,35 +166,43 @@ RevOrder(c) == [j \in DOMAIN c.slots |-> Len(c.slots) + 1 - j]
 FooSig(c) == SigOf(c, FwdOrder(c))
 MidSig(c) == SigOf(c, RevOrder(c))
 
-\* ---- the concrete arguments main passes ------------------------------------------------
-\* values are tagged: <<"int", n>> <<"half", n>> (= n/2) <<"bool", b>> <<"tup", <<v..>>>>
-\* <<"arr", <<v..>>>> <<"box", v>>; position-dependent so that swapped arguments show
-ValOf(t, pos) ==
-    CASE t[1] = "int" -> <<"int", 10 + pos>>
-      [] t[1] = "float" -> <<"half", 2 * pos + 1>>
-      [] t[1] = "bool" -> <<"bool", pos % 2 = 0>>
-      [] t[1] = "tup" -> <<"tup", << <<"int", 20 + pos>>, <<"bool", pos % 2 = 1>> >> >>
-      [] t[1] = "arr" -> <<"arr", << <<"int", 30 + pos>>, <<"int", 40 + pos>> >> >>
-KVal(c, pos) == IF c.eq \/ pos % 2 = 1 THEN 7 ELSE 0 - 3
-MVal(pos) == 4 + pos
-ArrVals(c, pos) == [e \in 1..c.narg[c.slots[pos][2]] |-> <<"int", 100 * pos + e>>]
-ActualVal(c, pos) ==
+\* ---- the concrete arguments main passes in round r -------------------------------------
+\* values are tagged: <<"int", n>> <<"half", n>> (= n/2) <<"negzero">> (= -0.0) <<"bool", b>>
+\* <<"tup", <<v..>>>> <<"arr", <<v..>>>> <<"box", v>> <<"tag", b>>; position- and round-
+\* dependent so that swapped arguments or a mixed-up instance show
+ValOf(t, pos, r) ==
+    CASE t[1] = "int" -> <<"int", 10 + pos + 100 * (r - 1)>>
+      [] t[1] = "float" -> <<"half", 2 * pos + 1 + 20 * (r - 1)>>
+      [] t[1] = "bool" -> <<"bool", (pos + r) % 2 = 1>>
+      [] t[1] = "tup" -> <<"tup", << <<"int", 20 + pos + 100 * (r - 1)>>, <<"bool", (pos + r) % 2 = 0>> >> >>
+      [] t[1] = "arr" -> <<"arr", << <<"int", 30 + pos + 100 * (r - 1)>>, <<"int", 40 + pos + 100 * (r - 1)>> >> >>
+KVal(c, pos, r) == (IF c.eq \/ pos % 2 = 1 THEN 7 ELSE 0 - 3) + 10 * (r - 1)
+MVal(pos, r) == 4 + pos + 10 * (r - 1)
+GVal(c, pos, r) == IF c.eq THEN r % 2 = 1 ELSE (pos + r) % 2 = 0
+ArrVals(c, pos, r) == [e \in 1..c.narg[c.slots[pos][2]] |-> <<"int", 100 * pos + e + 1000 * (r - 1)>>]
+DVal(c, pos, r) ==
+    LET t == c.targ[c.slots[pos][2]] IN
+    IF c.zero /\ t = TFloat THEN (IF r = 1 THEN <<"half", 0>> ELSE <<"negzero">>)
+    ELSE ValOf(t, IF c.eq THEN 0 ELSE pos, r)
+ActualVal(c, pos, r) ==
     LET s == c.slots[pos] IN
-    CASE s[1] = "V" -> ValOf(c.targ[s[2]], pos)
-      [] s[1] = "D" -> ValOf(c.targ[s[2]], IF c.eq THEN 0 ELSE pos)
-      [] s[1] = "B" -> <<"box", ValOf(c.targ[s[2]], pos)>>
-      [] s[1] = "A" -> <<"arr", ArrVals(c, pos)>>
-      [] s[1] = "K" -> <<"int", KVal(c, pos)>>
-      [] s[1] = "M" -> <<"nat", MVal(pos)>>
-ActualType(c, pos) ==
+    CASE s[1] = "V" -> ValOf(c.targ[s[2]], pos, r)
+      [] s[1] = "D" -> DVal(c, pos, r)
+      [] s[1] = "B" -> <<"box", ValOf(c.targ[s[2]], pos, r)>>
+      [] s[1] = "A" -> <<"arr", ArrVals(c, pos, r)>>
+      [] s[1] = "K" -> <<"int", KVal(c, pos, r)>>
+      [] s[1] = "M" -> <<"nat", MVal(pos, r)>>
+      [] s[1] = "G" -> <<"tag", GVal(c, pos, r)>>
+ActualType(c, pos, r) ==
     LET s == c.slots[pos] IN
     CASE s[1] \in {"V", "D"} -> c.targ[s[2]]
       [] s[1] = "B" -> TSt("G1", <<ArgT(c.targ[s[2]])>>)
       [] s[1] = "A" -> TArr(TInt, CVal(TNat, <<"val", <<"nat", c.narg[s[2]]>> >>))
       [] s[1] = "K" -> TInt
       [] s[1] = "M" -> TNat
+      [] s[1] = "G" -> TSt("Tag", <<ArgC(CVal(TBool, <<"val", <<"bool", GVal(c, pos, r)>> >>))>>)
 \* the constant a comptime argument denotes in main (ConstValue(ty, v))
-ActualConst(c, pos) == CVal(ActualType(c, pos), <<"val", ActualVal(c, pos)>>)
+ActualConst(c, pos, r) == CVal(ActualType(c, pos, r), <<"val", ActualVal(c, pos, r)>>)
 
 \* ---- inference: unify declared input types with actual ones (first-order matching) ------
 Fail == {<<"fail">>}
@@ -197,8 +238,9 @@ InputPos(order, pos) == CHOOSE j \in DOMAIN order : order[j] = pos
 \* ---- the machine ------------------------------------------------------------------------
 VARIABLES cs,                 \* the case
           sg,                 \* [foo, mid]: the parsed signatures
-          midInst, fooInst,   \* inferred instantiations of the two calls
-          midMono, fooMono,   \* partial monomorphisations chosen by the compiler
+          midInst,            \* per round: inferred instantiation of main's call of mid
+          fooInst,            \* inferred instantiation of mid's call of foo (mid's bound variables)
+          midMono, fooMono,   \* per round: partial monomorphisations chosen by the compiler
           pc
 vars == <<cs, sg, midInst, fooInst, midMono, fooMono, pc>>
 
@@ -211,12 +253,13 @@ Parse ==
     /\ sg' = [foo |-> FooSig(cs), mid |-> MidSig(cs)]
     /\ pc' = "check_main" /\ UNCHANGED <<cs, midInst, fooInst, midMono, fooMono>>
 
-\* type checking `mid(...)` in main: all actuals are concrete
+\* type checking the two calls `mid(...)` in main: all actuals are concrete
 CheckMain ==
     /\ pc = "check_main"
-    /\ midInst' = Infer(sg.mid,
-                        [j \in DOMAIN cs.slots |-> ActualType(cs, RevOrder(cs)[j])],
-                        [j \in DOMAIN cs.slots |-> ActualConst(cs, RevOrder(cs)[j])])
+    /\ midInst' = [r \in Rounds |->
+                     Infer(sg.mid,
+                           [j \in DOMAIN cs.slots |-> ActualType(cs, RevOrder(cs)[j], r)],
+                           [j \in DOMAIN cs.slots |-> ActualConst(cs, RevOrder(cs)[j], r)])]
     /\ pc' = "check_mid" /\ UNCHANGED <<cs, sg, fooInst, midMono, fooMono>>
 
 \* type checking `foo(...)` in mid: the actuals are mid's own inputs (types with mid's bound
@@ -231,16 +274,18 @@ CheckMid ==
                            [j \in DOMAIN cs.slots |-> IF inOfSlot(j)[2] = "comptime" THEN constOfSlot(j) ELSE <<"none">>])
     /\ pc' = "mono_mid" /\ UNCHANGED <<cs, sg, midInst, midMono, fooMono>>
 
-\* compiling main (current_mono_args = ()): build_compiled_def(mid, midInst)
+\* compiling main (current_mono_args = ()): build_compiled_def(mid, midInst[r]) per call
 MonoMid ==
     /\ pc = "mono_mid"
-    /\ midMono' = MonoArgs(sg.mid.params, midInst)
+    /\ midMono' = [r \in Rounds |-> MonoArgs(sg.mid.params, midInst[r])]
     /\ pc' = "mono_foo" /\ UNCHANGED <<cs, sg, midInst, fooInst, fooMono>>
 
-\* compiling mid under current_mono_args = midMono: build_compiled_def(foo, fooInst)
+\* compiling the instance of mid for round r under current_mono_args = midMono[r]:
+\* build_compiled_def(foo, fooInst) - the same type arguments mean something different in
+\* each instance of mid
 MonoFoo ==
     /\ pc = "mono_foo"
-    /\ fooMono' = MonoArgs(sg.foo.params, SeqMap(LAMBDA a : NormA(a, midMono), fooInst))
+    /\ fooMono' = [r \in Rounds |-> MonoArgs(sg.foo.params, SeqMap(LAMBDA a : NormA(a, midMono[r]), fooInst))]
     /\ pc' = "done" /\ UNCHANGED <<cs, sg, midInst, fooInst, midMono>>
 
 Next == Parse \/ CheckMain \/ CheckMid \/ MonoMid \/ MonoFoo
@@ -249,7 +294,7 @@ Done == pc = "done"
 
 \* ---- derived: what the three program variants are and must do ----------------------------
 \* foo's instantiation seen from main: close fooInst with mid's instantiation
-FooFull == SeqMap(LAMBDA a : InstA(a, midInst), fooInst)
+FooFull(r) == SeqMap(LAMBDA a : InstA(a, midInst[r]), fooInst)
 IsOpen(a) == a = NoArg
 ClosedArg(a) == IF a[1] = "T" THEN BoundIdxT(a[2]) = {} ELSE a[2][1] # "bc"
 
@@ -262,78 +307,91 @@ SubstOf(sig, args) ==       \* parameter name -> argument, for the body text
     SeqFilter([k \in DOMAIN sig.params |-> <<sig.params[k][3], args[k]>>],
               [k \in DOMAIN sig.params |-> args[k] # NoArg])
 
-\* expected events
+\* expected events of round r
 SumInts(vs) == LET RECURSIVE S(_) S(k) == IF k = 0 THEN 0 ELSE vs[k][2] + S(k - 1) IN S(Len(vs))
-RECURSIVE SumOver(_, _)
-SumOver(c, pos) ==
+RECURSIVE SumOver(_, _, _)
+SumOver(c, pos, r) ==
     IF pos = 0 THEN 0
-    ELSE SumOver(c, pos - 1) +
-         (CASE c.slots[pos][1] = "A" -> SumInts(ArrVals(c, pos))
-            [] c.slots[pos][1] = "K" -> KVal(c, pos)
+    ELSE SumOver(c, pos - 1, r) +
+         (CASE c.slots[pos][1] = "A" -> SumInts(ArrVals(c, pos, r))
+            [] c.slots[pos][1] = "K" -> KVal(c, pos, r)
             [] OTHER -> 0)
-Expected(c) ==
+Expected(c, r) ==
     LET foo == sg.foo
         consts == SeqFlatten([pos \in DOMAIN c.slots |->
-                      CASE c.slots[pos][1] = "K" -> << <<KN[pos], <<"int", KVal(c, pos)>> >> >>
-                        [] c.slots[pos][1] = "M" -> << <<MN[pos], <<"nat", MVal(pos)>> >> >>
+                      CASE c.slots[pos][1] = "K" -> << <<KN[pos], <<"int", KVal(c, pos, r)>> >> >>
+                        [] c.slots[pos][1] = "M" -> << <<MN[pos], <<"nat", MVal(pos, r)>> >> >>
+                        [] c.slots[pos][1] = "G" -> << <<GNm[pos], <<"bool", GVal(c, pos, r)>> >> >>
                         [] OTHER -> <<>>])
         nats == SeqFlatten([k \in DOMAIN foo.params |->
                       IF foo.params[k][3] \in Range(NNames)
                       THEN << <<foo.params[k][3],
                                 <<"nat", c.narg[CHOOSE nv \in NVars(c.slots) : NNames[nv + 1] = foo.params[k][3]]>> >> >>
                       ELSE <<>>])
-        rets == SeqMap(LAMBDA pos : <<"r", IF c.slots[pos][1] = "B" THEN ActualVal(c, pos)[2] ELSE ActualVal(c, pos)>>,
+        rets == SeqMap(LAMBDA pos : <<"r", IF c.slots[pos][1] = "B" THEN ActualVal(c, pos, r)[2] ELSE ActualVal(c, pos, r)>>,
                        RetOrder(c))
-    IN consts \o nats \o rets \o << <<"r", <<"int", SumOver(c, Len(c.slots))>> >> >>
+    IN consts \o nats \o rets \o << <<"r", <<"int", SumOver(c, Len(c.slots), r)>> >> >>
 
 \* ---- properties ---------------------------------------------------------------------------
+CasesValid == ValidCase(cs)
 SigsScoped == pc # "parse" => ScopedSig(sg.foo) /\ ScopedSig(sg.mid)
 \* inference finds an instantiation, and it is the one the case was built from
 InferRecovers ==
-    (pc \notin {"parse", "check_main"}) =>
-        /\ InferOk(sg.mid, midInst)
-        /\ \A k \in DOMAIN midInst :
+    (pc \notin {"parse", "check_main"}) => \A r \in Rounds :
+        /\ InferOk(sg.mid, midInst[r])
+        /\ \A k \in DOMAIN midInst[r] :
               LET p == sg.mid.params[k] IN
-              /\ ArgFits(p, midInst[k])
+              /\ ArgFits(p, midInst[r][k])
               /\ (p[3] \in Range(TNames)) =>
-                    midInst[k] = ArgT(cs.targ[CHOOSE tv \in TVars(cs.slots) : TNames[tv + 1] = p[3]])
+                    midInst[r][k] = ArgT(cs.targ[CHOOSE tv \in TVars(cs.slots) : TNames[tv + 1] = p[3]])
 InferMidTotal == (pc \in {"mono_mid", "mono_foo", "done"}) => InferOk(sg.foo, fooInst)
 \* "Mono-arguments should not refer to any bound variables" (assert in the code)
-MonoClosed == Done => /\ \A k \in DOMAIN midMono : IsOpen(midMono[k]) \/ ClosedArg(midMono[k])
-                      /\ \A k \in DOMAIN fooMono : IsOpen(fooMono[k]) \/ ClosedArg(fooMono[k])
+MonoClosed == Done => \A r \in Rounds :
+                      /\ \A k \in DOMAIN midMono[r] : IsOpen(midMono[r][k]) \/ ClosedArg(midMono[r][k])
+                      /\ \A k \in DOMAIN fooMono[r] : IsOpen(fooMono[r][k]) \/ ClosedArg(fooMono[r][k])
 \* deciding foo's monomorphisation inside generic mid agrees with deciding it for the
-\* closed instantiation: same positions, same values
+\* closed instantiation: same positions, same values - per instance of mid
 MonoComposes ==
-    Done => LET direct == MonoArgs(sg.foo.params, FooFull)
-            IN \A k \in DOMAIN fooMono : fooMono[k] = direct[k]
+    Done => \A r \in Rounds :
+            LET direct == MonoArgs(sg.foo.params, FooFull(r))
+            IN \A k \in DOMAIN fooMono[r] : fooMono[r][k] = direct[k]
+\* two instances of mid that differ in a monomorphised constant call different instances of foo
+InstancesFollow ==
+    Done => \A k \in DOMAIN fooMono[1] :
+               (fooMono[1][k] # NoArg /\ FooFull(1)[k] # FooFull(2)[k]) => fooMono[1][k] # fooMono[2][k]
 \* specialising the monomorphised parameters first and the rest afterwards is the same as
 \* specialising everything at once
 PartialThenRest ==
-    Done => InstPartial(InstPartial(sg.foo, fooMono), RemArgs(FooFull, fooMono))
-            = InstPartial(sg.foo, FooFull)
+    Done => \A r \in Rounds :
+            InstPartial(InstPartial(sg.foo, fooMono[r]), RemArgs(FooFull(r), fooMono[r]))
+            = InstPartial(sg.foo, FooFull(r))
 \* Hugr indices of the open parameters are dense and order preserving
 HugrIdxDense ==
-    Done => LET open == {k \in DOMAIN fooMono : fooMono[k] = NoArg}
-            IN \A k \in open : HugrIdx(k - 1, fooMono) = Cardinality({j \in open : j < k})
+    Done => \A r \in Rounds :
+            LET open == {k \in DOMAIN fooMono[r] : fooMono[r][k] = NoArg}
+            IN \A k \in open : HugrIdx(k - 1, fooMono[r]) = Cardinality({j \in open : j < k})
 \* whatever stays open can be expressed in Hugr: type parameters and nat parameters only
 OpenIsHugrExpressible ==
-    Done => \A k \in DOMAIN fooMono : fooMono[k] = NoArg =>
-               LET p == InstBounds(sg.foo.params[k], FooFull) IN IsTypeParam(p) \/ p[4] = TNat
+    Done => \A r \in Rounds : \A k \in DOMAIN fooMono[r] : fooMono[r][k] = NoArg =>
+               LET p == InstBounds(sg.foo.params[k], FooFull(r)) IN IsTypeParam(p) \/ p[4] = TNat
 
+RoundRec(r) ==
+    [actuals |-> [j \in DOMAIN cs.slots |-> ActualVal(cs, j, r)],
+     foo |-> [mono |-> fooMono[r], full |-> FooFull(r),
+              partial |-> Special(sg.foo, fooMono[r]), closed |-> Special(sg.foo, FooFull(r)),
+              psubst |-> SubstOf(sg.foo, fooMono[r]), csubst |-> SubstOf(sg.foo, FooFull(r)),
+              hugr |-> HugrParams(sg.foo.params, fooMono[r])],
+     mid |-> [mono |-> midMono[r], full |-> midInst[r],
+              partial |-> Special(sg.mid, midMono[r]), closed |-> Special(sg.mid, midInst[r]),
+              psubst |-> SubstOf(sg.mid, midMono[r]), csubst |-> SubstOf(sg.mid, midInst[r]),
+              hugr |-> HugrParams(sg.mid.params, midMono[r])],
+     expected |-> Expected(cs, r)]
 Emit ==
     Done =>
       PrintT(ToJson([
-        id |-> [slots |-> cs.slots, eq |-> cs.eq, bound |-> [tv \in TVars(cs.slots) |-> cs.bound[tv]],
+        id |-> [slots |-> cs.slots, eq |-> cs.eq, zero |-> cs.zero, bound |-> [tv \in TVars(cs.slots) |-> cs.bound[tv]],
                 targ |-> [tv \in TVars(cs.slots) |-> cs.targ[tv]], narg |-> [nv \in NVars(cs.slots) |-> cs.narg[nv]]],
-        actuals |-> [j \in DOMAIN cs.slots |-> ActualVal(cs, j)],
-        foo |-> [generic |-> sg.foo, mono |-> fooMono, full |-> FooFull,
-                 partial |-> Special(sg.foo, fooMono), closed |-> Special(sg.foo, FooFull),
-                 psubst |-> SubstOf(sg.foo, fooMono), csubst |-> SubstOf(sg.foo, FooFull),
-                 hugr |-> HugrParams(sg.foo.params, fooMono)],
-        mid |-> [generic |-> sg.mid, mono |-> midMono, full |-> midInst,
-                 partial |-> Special(sg.mid, midMono), closed |-> Special(sg.mid, midInst),
-                 psubst |-> SubstOf(sg.mid, midMono), csubst |-> SubstOf(sg.mid, midInst),
-                 hugr |-> HugrParams(sg.mid.params, midMono)],
+        gen |-> [foo |-> sg.foo, mid |-> sg.mid],
         boxes |-> [tv \in TVars(cs.slots) |-> InstT(GStruct("G1").fields[1], <<ArgT(cs.targ[tv])>>)],
-        expected |-> Expected(cs)]))
+        rounds |-> [r \in Rounds |-> RoundRec(r)]]))
 =============================================================================
